@@ -17,7 +17,8 @@ RULE = ('A formula whose bounds are counted in sampling periods, a sampling peri
         'either with an explicit unit (s, ms, us, ns - any unit in which the literal is a finite decimal of <= 12 digits), or bare in the '
         'default unit, or bare next to a suffixed bound when both readings coincide; two independently drawn spellings of the same durations '
         '(also with the sampling period written in another unit and with another default unit) must give identical results offline and '
-        'online, before and after pastify(), and equal R-dt computed with bound/period. Lane reject: one bound is moved off the sampling '
+        'online, before and after pastify(), and equal R-dt computed with bound/period; a spelling may also write the same requirement text '
+        'twice (two assertions) or call parse() twice before pastify(). Lane reject: one bound is moved off the sampling '
         'grid: RTAMTException no later than the first evaluate/update, never a value. Lane dense: grid signals; bounds spelled with '
         'explicit units, and the whole case restated in another default unit (time stamps scaled): identical step functions. '
         'Non-trivial = the two spellings differ in >= 1 unit token and the result is not constant; distinct = distinct (text1, text2, '
@@ -154,7 +155,9 @@ def cases(draw, tier, mode, wide=False):
         alts = [(t, u) for (t, u) in spellings(1, pv * U[pu], None) if '.' not in t]
         pt, pun = draw(st.sampled_from(alts))
         cfgs.append({'unit': du, 'period': [int(pt), pun], 'choices': draw(st.lists(st.integers(0, 11), min_size=12, max_size=12)),
-                     'uniform': draw(st.sampled_from([None, None, 's', 'ms', 'us', 'ns']))})
+                     'uniform': draw(st.sampled_from([None, None, 's', 'ms', 'us', 'ns'])),
+                     # None: one requirement; dup: the same requirement text written twice (two assertions); reparse: parse() twice
+                     'layout': draw(st.sampled_from([None, None, None, 'dup', 'reparse']))})
     n = draw(F.trace_lengths(10))
     if mode == 'pastified':
         h = F.horizon(f) or 0
@@ -165,7 +168,10 @@ def cases(draw, tier, mode, wide=False):
 
 def text_for(f, period_ns, cfg):
     sp = Speller(period_ns, cfg['unit'], cfg['choices'], cfg.get('uniform'))
-    return 'out = ' + F.show(f, sp)
+    body = F.show(f, sp)
+    if cfg.get('layout') == 'dup':
+        return 'first = %s;\nout = %s' % (body, body)
+    return 'out = ' + body
 
 
 def time_column(n, period_ns, unit):
@@ -175,6 +181,8 @@ def time_column(n, period_ns, unit):
 def run_mode(mode, text, vs, tr, cfg, period_ns):
     n = len(tr[vs[0]])
     kw = dict(unit=cfg['unit'], period=(cfg['period'][0], cfg['period'][1], 0.1))
+    if cfg.get('layout') == 'reparse':
+        kw['parse'] = 2
     tcol = time_column(n, period_ns, cfg['unit'])
     if mode == 'offline':
         o = run_dt_off(text, vs, tr, time=tcol, **kw)
